@@ -573,3 +573,12 @@ M("m91h", "C14", "R14.2", DEMOOR, "        state_space, self._state_to_index_fn 
   "        state_space, _ = create_range_space(mins, maxs)\n        _, self._state_to_index_fn = create_range_space(mins, maxs + 1)\n        return state_space",
   "De Moor: index function built for a larger box than the state space", survives="no")
 B("b36", ["C14", "C15"], MIRJ, "        next_weekday = (state[self.state_component_lookup[\"weekday\"]] + 1) % 7", "        next_weekday = (1 + state[self.state_component_lookup[\"weekday\"]]) % 7", "sum commuted")
+
+# ---- later additions
+M("m100", "C20", "R20.7", PI, "        for eval_iter in range(self.config.max_eval_iter):", "        for eval_iter in range(self.config.max_eval_iterations):", "PI reads a config field that does not exist", survives="no")
+M("m101", "C20", "R20.7", VI, "            convergence_tests[self.config.convergence_test]", "            convergence_tests[self.config.convergence_criterion]", "VI reads a non-existent config field (also breaks PI, SAVI)", survives="no")
+M("m102", "C20", "R20.7", SAVI, "    convergence_test: str = \"span\"\n    shuffle_states: bool = False", "    shuffle_states: bool = False",
+  "SAVI config loses convergence_test, which the inherited ValueIteration._setup_convergence_testing reads", survives="no")
+MUTANTS[-1]["rule"] = ["R20.7", "R20.3"]
+M("m103", "C10", "R10.6", RVI, "        self.policy = solver_state.policy\n        self.iteration = solver_state.info.iteration\n        self.gain = solver_state.info.gain", "        self.iteration = solver_state.info.iteration\n        self.gain = solver_state.info.gain",
+  "RVI: the stored policy is saved but never restored (not loop-carried, so C09 is silent)")
